@@ -8,3 +8,46 @@ Print Assumptions C11_run_unfold.
 Theorem C11_run_is_iter : forall (A : Type) (f : A -> A) (n : nat) (x : A), repeat_app f n x = Nat.iter n f x.
 Proof. exact @repeat_app_iter. Qed.
 Print Assumptions C11_run_is_iter.
+
+(* ---- refinement of the reference semantics: prints with modifiers and escape letters
+        (Proofs/RefineMods.v, RefineNodes.v) ---- *)
+From DT Require Import Model.Value Model.Tree Model.Mods Model.Interp Spec.Ast Spec.RefEval Spec.Compile
+  Proofs.FlatProofs Proofs.RefineBase Proofs.RefineList Proofs.RefineMods Proofs.RefineNodes.
+
+(* the modifier loop on the compiled modifiers against apply_mods: same value (cells read
+   through), left to right, each fed the previous result; the first failing modifier ends the
+   chain with its error in Ctx.Err *)
+Theorem C11_run_mods_refines : forall mods c v n,
+  slots_ok c -> cerr c = None -> val_ok (length (bufLC c)) v ->
+  match apply_mods (abs c) mods (deref (bufLC c) v) with
+  | ChV v' => exists c2 v2, run_mods n c (map c_mod mods) v = ChOk c2 v2 /\ ceq c2 c /\ cerr c2 = None /\
+                            v' = deref (bufLC c) v2 /\ val_ok (length (bufLC c)) v2
+  | ChE x => exists c2 v2, run_mods n c (map c_mod mods) v = ChOk c2 v2 /\ ceq c2 c /\
+                           cerr c2 = Some (err_of_merr x)
+  | ChNA => True
+  end.
+Proof. exact run_mods_ref. Qed.
+Print Assumptions C11_run_mods_refines.
+
+(* escape letters are modifiers appended after the '|' modifiers, one per run of equal letters,
+   with the run length as argument: on the reference side ... *)
+Theorem C11_letters_after_mods : forall e letters mods v,
+  print_value e letters mods v <> ChNA ->
+  apply_mods e (mods ++ letter_amods (letter_runs letters)) v = print_value e letters mods v.
+Proof. exact print_value_amods. Qed.
+Print Assumptions C11_letters_after_mods.
+
+(* ... and in the compiled print node *)
+Theorem C11_print_node_mods : forall letters path mods pfx sfx raw,
+  c_print letters path mods pfx sfx raw =
+  NTpl path pfx sfx raw (map c_mod (mods ++ letter_amods (letter_runs letters))).
+Proof. exact c_print_amods. Qed.
+Print Assumptions C11_print_node_mods.
+
+(* a print with any pure modifiers and letters, prefix/suffix and raw output *)
+Theorem C11_print_refines :
+  forall flits lookup budget inc rlookup rinc L letters path mods pfx sfx raw,
+    node_ref flits lookup budget inc rlookup rinc L
+      (c_print letters path mods pfx sfx raw) (APrint letters path mods pfx sfx raw).
+Proof. exact print_ref. Qed.
+Print Assumptions C11_print_refines.
